@@ -325,7 +325,7 @@ def impl_ts(case, tsobj=None):
     pmm, idx, fp = _fp_of(case)
     if tsobj is None:
         tsobj = _ts_new('wilks', case['layout'], case.get('tsname'))
-    return _call(lambda: _as_float(tsobj(pmm=pmm, log_lambda=np.float64(_f(case['ll'])), fitparam_values=fp)))
+    return _call(lambda: _as_float(tsobj(pmm=pmm, log_lambda=_scalar_form(_f(case['ll']), case.get('ll_form', 'np64')), fitparam_values=fp)))
 
 
 def impl_tst(case, tsobj=None):
@@ -333,9 +333,9 @@ def impl_tst(case, tsobj=None):
     grads = np.array([0.125 * (i + 1) for i in range(max(len(fp), idx + 1))], dtype=np.float64)
     grads[idx] = _f(case['a'])
     stub = _StubLLH(_f(case['b']), grads)
-    kw = dict(pmm=pmm, log_lambda=np.float64(_f(case['ll'])), fitparam_values=fp, llhratio=stub)
+    kw = dict(pmm=pmm, log_lambda=_scalar_form(_f(case['ll']), case.get('ll_form', 'np64')), fitparam_values=fp, llhratio=stub)
     if case.get('pass_grads', True):
-        kw['grads'] = grads
+        kw['grads'] = grads.tolist() if case.get('grads_form') == 'list' else grads
     if tsobj is None:
         tsobj = _ts_new('taylor', case['layout'], case.get('tsname'))
     v, err = _call(lambda: _as_float(tsobj(**kw)))
@@ -578,11 +578,42 @@ def o_ts_real(ctx, case):
 
 # ---- histories on one real LLH-ratio OBJECT (its per-event gradient cache is the state the Taylor variant depends on)
 
+class _B(object):
+    pass
+
+
 def _lh_objects(case):
     from harness import llh_fixtures as fx
-    c = {'mode': 'single', 'Rs': [[_fl(case['R'])]], 'Ns': [case['N']]}
-    fx, b, llh = _build(c)
+    if not case.get('ns_second'):
+        c = {'mode': 'single', 'Rs': [[_fl(case['R'])]], 'Ns': [case['N']]}
+        fx, b, llh = _build(c)
+        return fx, b, llh
+    # a second global fit parameter mapped before ns: ns sits at fit-parameter index 1 on the REAL objects
+    try:
+        from skyllh.core.model import DetectorModel
+        from skyllh.core.parameters import Parameter, ParameterModelMapper
+        cfg = fx.make_cfg()
+        sources = fx.make_sources(1)
+        shg = fx.make_shg_mgr(cfg, sources)
+        det = DetectorModel('det')
+        pmm = ParameterModelMapper(models=[det] + sources)
+        pmm.map_param(Parameter('gamma', 2.0, 1, 4), models=sources)
+        pmm.map_param(Parameter('ns', 1.0, -1e9, 1e9), models=det)
+        R = np.array([_fl(case['R'])], dtype=np.float64).reshape((1, -1))
+        tdm = fx.make_tdm(shg, pmm, fx.make_events(R.shape[1]), n_events=case['N'])
+        llh = fx.make_single_llhratio(cfg, pmm, shg, tdm, fx.StubPDFRatio(cfg, R))
+    except Exception as e:  # noqa
+        from harness.core import MachineryError
+        raise MachineryError('C12 fixture construction (ns second) failed: %s: %s' % (type(e).__name__, e))
+    b = _B()
+    b.pmm, b.cfg = pmm, cfg
     return fx, b, llh
+
+
+def _fpv(fx, b, case, ns):
+    if case.get('ns_second'):
+        return fx.fitparam_values(b.pmm, ns, gamma=2.5)
+    return fx.fitparam_values(b.pmm, ns)
 
 
 def impl_lh(case):
@@ -591,21 +622,21 @@ def impl_lh(case):
     fx, b, llh = _lh_objects(case)
     fx2, b2_, fresh = _lh_objects(case)
     idx = b.pmm.get_gflp_idx(name='ns')
-    fp0 = fx.fitparam_values(b.pmm, 0.0)
+    fp0 = _fpv(fx, b, case, 0.0)
     with np.errstate(all='ignore'):
-        (ll0, grads0) = fresh.evaluate(fx2.fitparam_values(b2_.pmm, 0.0))
+        (ll0, grads0) = fresh.evaluate(_fpv(fx2, b2_, case, 0.0))
     tsobj = LLHRatioZeroNsTaylorWilksTestStatistic()
     out = []
     for op in case['ops']:
         k = op[0]
         if k == 'e':
             with np.errstate(all='ignore'):
-                llh.evaluate(fx.fitparam_values(b.pmm, _f(op[1])))
+                llh.evaluate(_fpv(fx, b, case, _f(op[1])))
         elif k == 'n':
             llh.initialize_for_new_trial()
         elif k == 'g':
             ns = _f(op[1])
-            rec = b.pmm.create_src_params_recarray(fx.fitparam_values(b.pmm, ns))
+            rec = b.pmm.create_src_params_recarray(_fpv(fx, b, case, ns))
             try:
                 out.append(('ok', float(llh.calculate_ns_grad2(ns=ns, ns_pidx=idx, src_params_recarray=rec))))
             except RuntimeError:
@@ -927,15 +958,35 @@ def o_ana_chain(ctx, case):
 # ------------------------------------------------------------------------------------------
 # p-values
 
+def _scalar_form(v, form):
+    """a scalar argument as Python float / numpy scalar / 0-d array / Python int (when integral)"""
+    if form == 'np64':
+        return np.float64(v)
+    if form == 'arr0d':
+        return np.array(v, dtype=np.float64)
+    if form == 'int' and float(v).is_integer() and abs(v) < 2 ** 53:
+        return int(v)
+    return float(v)
+
+
+def _sample_form(vals, shape):
+    """the (n_trials,)-shaped sample as a contiguous / non-contiguous / read-only 1-d array"""
+    if shape in ('strided', 'ro'):
+        return _mk(vals, shape)
+    return np.array(_fl(vals), dtype=np.float64)
+
+
 def impl_pv(case):
     from skyllh.core.utils.analysis import calculate_pval_from_trials
-    tsv = np.array(_fl(case['tsv']), dtype=np.float64)
-    thr = _f(case['thr'])
+    tsv = _sample_form(case['tsv'], case.get('shape'))
+    thr = _scalar_form(_f(case['thr']), case.get('thr_form'))
     op = case.get('op')
     try:
         with np.errstate(all='ignore'):
             if op is None:
                 (p, s) = calculate_pval_from_trials(tsv, thr)
+            elif case.get('op_pos'):
+                (p, s) = calculate_pval_from_trials(tsv, thr, OPS[op])          # comp_operator positionally
             else:
                 (p, s) = calculate_pval_from_trials(tsv, thr, comp_operator=OPS[op])
         return ('ok', float(p), float(s))
@@ -993,10 +1044,10 @@ class _GammaRecorder(object):
 
 def impl_mix(case):
     import skyllh.core.utils.analysis as ua
-    tsv = np.array(_fl(case['tsv']), dtype=np.float64)
+    tsv = _sample_form(case['tsv'], case.get('shape'))
     kw = {}
     if case.get('switch') is not None:
-        kw['switch_at_ts'] = _f(case['switch'])
+        kw['switch_at_ts'] = _scalar_form(_f(case['switch']), case.get('thr_form'))
     if case.get('eta') is not None:
         kw['eta'] = _f(case['eta'])
     if case.get('op') is not None:
@@ -1008,11 +1059,11 @@ def impl_mix(case):
     ua.calculate_pval_from_gammafit_to_trials = rec
     try:
         with np.errstate(all='ignore'):
-            r = ua.calculate_pval_from_trials_mixed(tsv, _f(case['thr']), **kw)
+            r = ua.calculate_pval_from_trials_mixed(tsv, _scalar_form(_f(case['thr']), case.get('thr_form')), **kw)
         if rec.calls:
             # everything handed to the gamma fit: eta, n_max, threshold, sample (length + leading values), and what comes back
             c = rec.calls[0]
-            return ('G', c[0], c[1], c[2], c[3], c[4] == [float(v) for v in tsv[:64]], (float(r[0]), float(r[1])) == (0.5, 0.0), len(rec.calls))
+            return ('G', c[0], c[1], c[2], c[3], c[4] == [float(v) for v in tsv.ravel()[:64]], (float(r[0]), float(r[1])) == (0.5, 0.0), len(rec.calls))
         return ('T', 'ok', float(r[0]), float(r[1]))
     except ZeroDivisionError:
         return ('T', 'err', 'Z')
@@ -1140,7 +1191,12 @@ def impl_poly(case):
         with warnings.catch_warnings():
             warnings.simplefilter('ignore')
             with np.errstate(all='ignore'):
-                v = polynomial_fit(x, y, w, case['deg'], _f(case['pthr']))
+                deg = {'np': np.int64, 'float': float}.get(case.get('deg_form'), int)(case['deg'])
+                if case.get('seq_form') == 'tuple':
+                    x, y, w = tuple(x), tuple(y), tuple(w)
+                elif case.get('seq_form') == 'mixed':
+                    x, y, w = np.array(x), tuple(y), list(w)
+                v = polynomial_fit(x, y, w, deg, _scalar_form(_f(case['pthr']), case.get('thr_form')))
         return ('ok', float(v))
     except ValueError:
         return ('err', 'V')
@@ -2047,7 +2103,7 @@ def gen_lh(rng):
     ops.append([rng.choice(['t', 'u', 'g'])] if True else None)
     if ops[-1] == ['g']:
         ops[-1] = ['g', 0.0]
-    return {'kind': 'lh', 'R': R, 'N': N, 'ops': ops}
+    return {'kind': 'lh', 'R': R, 'N': N, 'ops': ops, 'ns_second': rng.random() < 0.35}
 
 
 def gen_mh(rng, nprng):
@@ -2136,7 +2192,9 @@ def run(ctx):
         ctx.count('ts:ns' + ('<0' if ns < 0 else '=0' if ns == 0 else '>0'))
         others = [rng.choice([2.5, -2.5, 0.0, 7.0, -3.0]) for _ in range(4)]
         tsname = rng.choice(['nsignal', 'gamma_', 'NS']) if rng.random() < 0.04 else None     # no such floating parameter
-        c = {'kind': 'ts', 'layout': layout, 'ns': ns, 'll': ll, 'others': others}
+        ll_form = rng.choice(['pyfloat', 'np64', 'arr0d', 'int'])
+        c = {'kind': 'ts', 'layout': layout, 'ns': ns, 'll': ll, 'others': others, 'll_form': ll_form}
+        ctx.count('glue:log_lambda-as-' + ll_form)
         fp_cut = _pmm(layout)[1] if (not tsname and rng.random() < 0.03) else None
         if tsname:
             c['tsname'] = tsname
@@ -2149,7 +2207,7 @@ def run(ctx):
         a = rng.choice([0.0, 0.0, -0.3, 0.7, rng.gauss(0, 2), 1e-8])
         b = rng.choice([-0.05, -1.0, -rng.uniform(1e-6, 10), -1e-12, 0.25, 0.0, -0.0])
         c = {'kind': 'tst', 'layout': layout, 'ns': ns, 'll': ll, 'a': a, 'b': b, 'others': others,
-             'pass_grads': rng.random() < 0.7}
+             'pass_grads': rng.random() < 0.7, 'll_form': ll_form, 'grads_form': rng.choice(['array', 'list'])}
         if tsname:
             c['tsname'] = tsname
         if fp_cut is not None:
@@ -2167,6 +2225,7 @@ def run(ctx):
     lhs = [gen_lh(rng) for _ in range(ctx.n(60, 1500))]
     for c in lhs:
         ctx.count('lh:selected-events=%s' % ('0' if not c['R'] else '>=1'))
+        ctx.count('lh:ns-at-fit-parameter-index-%d' % (1 if c.get('ns_second') else 0))
         ctx.count('lh:evaluate-with-unstable-events', sum(
             1 for o in c['ops'] if o[0] == 'e' and any(_f(o[1]) * (rr - 1.) / c['N'] <= opa_value() - 1 for rr in c['R'])))
         ctx.count('lh:ends-with-' + c['ops'][-1][0])
@@ -2201,11 +2260,17 @@ def run(ctx):
         ocases.append(('pval', {'tsv': vals, 'thrs': thrs}))
         for thr in thrs[:3]:
             op = rng.choice([0, 1, 0, 1, 2, None])
-            cases.append({'kind': 'pv', 'tsv': vals, 'thr': thr, 'op': op})
+            shape = rng.choice(['1d', 'strided', 'ro'])      # documented: (n_trials,)-shaped 1D ndarray
+            thr_form = rng.choice(['pyfloat', 'np64', 'arr0d', 'int'])
+            cases.append({'kind': 'pv', 'tsv': vals, 'thr': thr, 'op': op, 'shape': shape, 'thr_form': thr_form,
+                          'op_pos': rng.random() < 0.3})
+            ctx.count('glue:sample-shape-' + shape)
+            ctx.count('glue:threshold-as-' + thr_form)
             ctx.count('pv:thr-%s' % ('tie' if thr in vals else 'other'))
         c = {'kind': 'mix', 'tsv': vals, 'thr': rng.choice(thrs + [3.0, float(np.nextafter(3.0, 0))]),
              'switch': rng.choice([None, None, 3.0, 1.0, rng.choice(thrs)]), 'eta': rng.choice([None, None, 2.0, 3.5]),
-             'op': rng.choice([None, 0, 1, 2]), 'n_max': rng.choice([None, None, 10, 1000000])}
+             'op': rng.choice([None, 0, 1, 2]), 'n_max': rng.choice([None, None, 10, 1000000]),
+             'shape': rng.choice(['1d', 'strided', 'ro']), 'thr_form': rng.choice(['pyfloat', 'np64', 'arr0d'])}
         if not (c['thr'] != c['thr']):
             cases.append(c)
             ocases.append(('mixed', c))
@@ -2235,7 +2300,10 @@ def run(ctx):
         if len(xs) <= deg + 1:
             deg = 1
         pthr = rng.choice([0.5, 0.9, 0.5, 0.9, 0.1, 0.7, rng.uniform(0.05, 0.95)])
-        c = {'kind': 'poly', 'x': xs, 'y': ys, 'w': ws, 'deg': deg, 'pthr': pthr}
+        c = {'kind': 'poly', 'x': xs, 'y': ys, 'w': ws, 'deg': deg, 'pthr': pthr, 'deg_form': rng.choice(['int', 'np', 'float']),
+             'seq_form': rng.choice(['list', 'tuple', 'mixed']), 'thr_form': rng.choice(['pyfloat', 'np64', 'arr0d'])}
+        ctx.count('glue:deg-as-' + c['deg_form'])
+        ctx.count('glue:poly-sequences-as-' + c['seq_form'])
         cases.append(c)
         ocases.append(('poly', c))
         ocases.append(('poly_equivariance', c))
@@ -2264,6 +2332,30 @@ def run(ctx):
         cases.append({'kind': 'fwd', 'outer': rng.sample(_PNAMES, rng.randrange(0, 4)), 'fixed': rng.sample(_PNAMES[5:], 2),
                       'kws': rng.sample(_PNAMES[:5], rng.randrange(0, 5))})
 
+    # ---- directed cases: one per branch of the model that random generation does not reach in every run
+    o4 = [2.5, -2.5, 0.0, 7.0]
+    cases += [
+        {'kind': 'tst', 'layout': 'ns1', 'ns': 0.0, 'll': 0.0, 'a': 0.5, 'b': 0.0, 'others': o4, 'pass_grads': True},
+        {'kind': 'tst', 'layout': 'ns2', 'ns': -0.0, 'll': 1.0, 'a': 0.0, 'b': -0.0, 'others': o4, 'pass_grads': False},
+        {'kind': 'ts', 'layout': 'ns2', 'ns': 1.0, 'll': 1.0, 'others': o4, 'fp_cut': 2},
+        {'kind': 'ts', 'layout': 'nsig', 'ns': -1.0, 'll': 1.0, 'others': o4, 'tsname': 'nsignal'},
+        {'kind': 'pg', 'seed': 5, 'n': 0, 'eta': 3.0, 'thr': 3.5, 'n_max': 500000},
+        {'kind': 'pg', 'seed': 5, 'n': 2000, 'eta': 3.0, 'thr': 2.5, 'n_max': 500000},
+        {'kind': 'pg', 'seed': 5, 'n': 2000, 'eta': 3.0, 'thr': 3.5, 'n_max': 700},
+        {'kind': 'poly', 'x': [0.0, 1.0, 2.0, 3.0, 4.0], 'y': [0.0] * 5, 'w': [10.0] * 5, 'deg': 1, 'pthr': 0.5},
+        {'kind': 'poly', 'x': [0.0, 1.0, 2.0, 3.0, 4.0], 'y': [0.0] * 5, 'w': [10.0] * 5, 'deg': 2, 'pthr': 0.5},
+        {'kind': 'poly', 'x': [0.0, 1.0, 2.0, 3.0, 4.0, 5.0], 'y': [0.1, 0.2, 0.35, 0.5, 0.6, 0.8], 'w': [10.0] * 6, 'deg': 3, 'pthr': 0.5},
+        {'kind': 'poly', 'x': [0.0, 1.0, 2.0, 3.0, 4.0, 5.0], 'y': [0.1, 0.2, 0.35, 0.5, 0.6, 0.8], 'w': [10.0] * 6, 'deg': 0, 'pthr': 0.5},
+        {'kind': 'mix', 'tsv': [1.0, 2.0, 4.0], 'thr': 3.5, 'switch': None, 'eta': 2.0, 'op': None, 'n_max': None},
+        {'kind': 'pv', 'tsv': [], 'thr': 1.0, 'op': 0}, {'kind': 'pv', 'tsv': [], 'thr': 1.0, 'op': 1}, {'kind': 'pv', 'tsv': [], 'thr': 1.0, 'op': 2},
+    ]
+    base_m = {'Rs': [[[1.5, 0.3, 1.0], [2.0, 0.1, 0.5]], [[], []]], 'Ns': [8, 4], 'W': [1.0, 2.0], 'Y': [[1.0, 2.0], [2.0, 1.0]]}
+    mhs += [
+        dict(base_m, kind='mh', obj='multi', ops=[['g', 0.0], ['E', 0.5], ['g', 0.5], ['n'], ['g', 0.5], ['t']]),
+        dict(base_m, kind='mh', obj='profile', ns0=0.5, ops=[['E', 0.0], ['t'], ['n'], ['E', 0.0], ['g', 1, 0.0], ['g', 0, 0.0], ['u']]),
+    ]
+    lhs += [{'kind': 'lh', 'R': [0.0, 2.0, 1.0], 'N': 4, 'ops': [['g', 0.0], ['e', 3.998], ['g', 3.998], ['n'], ['t']]},
+            {'kind': 'lh', 'R': [1.0, 1.0], 'N': 2, 'ops': [['u']]}]
     # ---- correspondence, one driver batch (+ the multi-round batch for the real objects)
     reqs = [corr_request(c) for c in cases]
     models = ctx.driver('C12', reqs)
